@@ -16,17 +16,23 @@ DIRECTIVE_PREFIXES = ("!$omp", "!dir$", "!$acc")
 
 
 def expected_sequence(L, flat):
+    """sequence of 'S' (statement) / comment text by construction: a comment on or inside the
+    physical lines of a statement comes directly after the LAST statement that shares those
+    lines (';' joins), other comments where they stand"""
     ev = []
-    stmt_of_line = {}
-    for st, _ in flat:
+    last_stmt_of_line = {}
+    first_of = {}
+    for pos, (st, _) in enumerate(flat):
         f, l = L.spans[st.uid]
-        ev.append(((l, 0, st.uid), "S"))
+        ev.append(((l, 0, pos), "S"))
         for ln in range(f, l + 1):
-            stmt_of_line[ln] = (f, l)
+            last_stmt_of_line[ln] = pos
+            first_of.setdefault(ln, f)
     for idx, (ln, text, inline) in enumerate(L.comments):
-        if ln in stmt_of_line and (inline or stmt_of_line[ln][0] < ln):
-            f, l = stmt_of_line[ln]
-            ev.append(((l, 1, idx), text))
+        if ln in last_stmt_of_line and (inline or first_of[ln] < ln):
+            pos = last_stmt_of_line[ln]
+            l = L.spans[flat[pos][0].uid][1]
+            ev.append(((l, 0, pos + 0.5 + idx * 1e-6), text))
         else:
             ev.append(((ln, -1, idx), text))
     ev.sort(key=lambda e: e[0])
@@ -42,7 +48,8 @@ def run_case(case):
     if o0.kind != "tree":
         res["nontrivial"] = False
         return res
-    opts = layout.FreeOpts(p_cont=0.3, comments=True, p_comment=0.25, p_trailing=0.2, p_between=0.4, p_blank=0.0, p_extra_blank=0.0)
+    opts = layout.FreeOpts(p_cont=0.3, comments=True, p_comment=0.25, p_trailing=0.2, p_between=0.4, p_blank=0.0, p_extra_blank=0.0,
+                           p_semi=0.25 if case["seed"] % 3 == 0 else 0.0)
     L = layout.render_free(p, case["seed"] ^ 0xC11, opts)
     L.lines = [l for l in L.lines]
     src = L.text()
